@@ -201,7 +201,9 @@ func globalSelectHook(site string, n int) int {
 //go:norace
 func globalSelectHit(site string, i int) {
 	s := curSched.Load()
-	if s == nil {
+	if s == nil || RaceBuild {
+		// race build (C17): map operations are reported by the race detector even from go:norace code (the
+		// runtime's map functions carry their own instrumentation), and this probe is not needed there
 		return
 	}
 	if s.SelectHits == nil {
